@@ -262,10 +262,13 @@ class Run:
 
 
 def known_findings():
-    p = os.path.join(VERIF, "known_findings.json")
-    if not os.path.exists(p):
-        return []
-    return json.load(open(p)).get("findings", [])
+    """Committed findings: known_findings.json plus per-property fragments in
+    known_findings.d/ (same format); read-only at run time."""
+    out = []
+    for p in [os.path.join(VERIF, "known_findings.json")] + sorted(glob.glob(os.path.join(VERIF, "known_findings.d", "*.json"))):
+        if os.path.exists(p):
+            out += json.load(open(p)).get("findings", [])
+    return out
 
 
 def finding_matches(entry, pid, failure):
